@@ -921,4 +921,7 @@ def run(ctx):
     from rules import c09 as _c09
     _c09.rule_seek_targets(ctx, R="C01/destination/seek-targets")
     _c09.rule_save_restore(ctx, R="C01/destination/save-restore")
+    # the LinuxDsoDebug entry names exactly the record plus the bytes appended behind it (same rule instance as C18/dso-extent)
+    from rules import c18 as _c18
+    _c18.rule_dso_extent(ctx, R="C01/dso-extent")
 
